@@ -9,7 +9,8 @@
 EXTENDS Server, Json
 
 CONSTANTS Mode,        \* "conn" | "dgram"
-          NConn, MaxReq, QCapG, Kinds, MaxOps, MaxCredit, MaxTick
+          NConn, MaxReq, QCapG, Kinds, MaxOps, MaxCredit, MaxTick,
+          Limit        \* max_concurrent_connections of the stream server
 
 VARIABLES w, hist
 vars == <<w, hist>>
@@ -25,16 +26,26 @@ W0 == [ci |-> [c \in Conns |-> InitConn({}, QCapG)],
 
 \* apply one stimulus to one connection record
 Stim(s, op) ==
-  CASE op.op = "open"     -> EnvOpen(s)
-    [] op.op = "send"     -> IF s.st = "none" THEN s ELSE EnvSend(s, op.what, op.r, op.svc)
+  CASE op.op = "send"     -> IF s.st = "none" THEN s ELSE EnvSend(s, op.what, op.r, op.svc)
     [] op.op = "rest"     -> IF TailPartial(s) THEN EnvRest(s) ELSE s
     [] op.op = "release"  -> IF op.r \in DOMAIN s.tasks THEN EnvRelease(s, op.r) ELSE s
     [] op.op = "credit"   -> EnvCredit(s, 1)
     [] op.op = "abort"    -> IF s.st = "none" \/ s.ab THEN s ELSE EnvAbort(s)
     [] OTHER              -> s
 
+\* stream.rs: setup future failed, or the server is at its connection limit
+\* (live connections, at quiescence exactly those that are open): the
+\* stream is dropped; otherwise a Connection runs on it
+ApplyOpen(f, op) ==
+  LET live == Cardinality({c \in Conns : f[c].st = "open"})
+  IN IF f[op.c].st # "none" THEN f
+     ELSE IF op.what = "fail" \/ live >= Limit
+          THEN [f EXCEPT ![op.c] = EnvNoConn(f[op.c])]
+          ELSE [f EXCEPT ![op.c] = Settle(EnvOpen(f[op.c]))]
+
 ApplyConns(f, op) ==
-  CASE op.op = "halftick" -> [c \in Conns |-> Settle(EnvHalfTick(f[c]))]
+  CASE op.op = "open" -> ApplyOpen(f, op)
+    [] op.op = "halftick" -> [c \in Conns |-> Settle(EnvHalfTick(f[c]))]
     [] op.op = "shutdown" -> [c \in Conns |-> Settle(EnvShutdown(f[c]))]
     [] OTHER              -> [f EXCEPT ![op.c] = Settle(Stim(f[op.c], op))]
 
@@ -58,7 +69,8 @@ ConnOps(x) ==
   LET S(c) == x.cd[c]
       canSend(c) == S(c).st = "open" /\ ~S(c).ab /\ ~TailPartial(S(c)) /\ x.sent[c] < MaxReq
   IN UNION {
-       {Op("open", c, "", 0, "") : c \in {d \in Conns : S(d).st = "none" /\ ~x.down}},
+       {Op("open", c, wh, 0, "") : c \in {d \in Conns : S(d).st = "none" /\ ~x.down},
+                                   wh \in {"ok", "ok", "fail"}},
        {Op("send", c, wh, x.sent[c] + 1, svc) :
             c \in {d \in Conns : canSend(d)}, wh \in {"query", "partial"}, svc \in Kinds},
        {Op("send", c, wh, x.sent[c] + 1, "") :
@@ -101,7 +113,7 @@ Spec == Init /\ [][Next]_vars
 CaseOf(h) ==
   [in  |-> IF Mode = "dgram"
            THEN [kind |-> "dgram", hint |-> 1232, ops |-> [i \in 1..Len(h) |-> h[i].op]]
-           ELSE [kind |-> "conn", q |-> QCapG, nc |-> NConn, ops |-> [i \in 1..Len(h) |-> h[i].op]],
+           ELSE [kind |-> "conn", q |-> QCapG, nc |-> NConn, limit |-> Limit, ops |-> [i \in 1..Len(h) |-> h[i].op]],
    exp |-> [i \in 1..Len(h) |-> h[i].pi],
    dev |-> [D_queue_full_drop |-> [i \in 1..Len(h) |-> h[i].pd]]]
 
@@ -115,7 +127,8 @@ Run(x, ops, h) ==
   ELSE LET y == Apply(x, Head(ops))
        IN Run(y, Tail(ops), Append(h, [op |-> Head(ops), pi |-> ProjI(y), pd |-> ProjD(y)]))
 
-O(c)  == Op("open", c, "", 0, "")
+O(c)  == Op("open", c, "ok", 0, "")
+OF(c) == Op("open", c, "fail", 0, "")     \* connection setup (handshake) fails
 Q(c, r, svc) == Op("send", c, "query", r, svc)
 P(c, r, svc) == Op("send", c, "partial", r, svc)
 Rp(c, r) == Op("send", c, "reply", r, "")
@@ -159,7 +172,16 @@ Directed ==
      <<O(1), O(2), Cr(2), Cr(2), Q(2,1,"single"), Sh(1), Rl(2,1), Q(2,2,"stream2"),
        Rl(2,2), Cr(2), Rl(2,2)>>,
      <<O(1), O(2), Cr(2), Q(1,1,"single"), Q(2,1,"single"), Ab(1), Rl(1,1), Rl(2,1)>>,
-     <<O(1), O(2), Cr(1), Cr(2), Rp(1,1), P(1,2,"single"), Q(2,1,"fail"), Rl(2,1), Ab(1)>> >>
+     <<O(1), O(2), Cr(1), Cr(2), Rp(1,1), P(1,2,"single"), Q(2,1,"fail"), Rl(2,1), Ab(1)>>,
+     \* failed connection setups (>= the limit of them) leave no trace:
+     \* the next client is served
+     <<OF(1), OF(2), OF(3), O(4), Cr(4), Q(4,1,"single"), Rl(4,1)>>,
+     <<O(1), OF(2), OF(3), O(4), Cr(4), Cr(1), Q(4,1,"single"), Rl(4,1), Q(1,1,"single"), Rl(1,1)>>,
+     \* at the limit a connection is refused; when one ends there is room again
+     <<O(1), O(2), O(3), Ab(1), O(4), Cr(4), Q(4,1,"single"), Rl(4,1), Cr(2), Q(2,1,"single"), Rl(2,1)>>,
+     \* open / close cycles of every kind do not use up the limit
+     <<O(1), Ab(1), O(2), Sh(2), OF(3), O(4), Cr(4), Q(4,1,"single"), Rl(4,1)>>,
+     <<O(1), HT, HT, O(2), Cr(2), Q(2,1,"single"), HT, O(3), Rl(2,1), HT, HT, O(4), Cr(4), Rp(4,1)>> >>
 
 DgDirected ==
   << <<Op("recv",0,"query",1,"single"), Op("recv",0,"reply",2,""), Op("recv",0,"short",3,"single"),
